@@ -117,6 +117,7 @@ func runC13(c *Ctx) {
 	r.Rule("R6-reload-under-lock", "a failed or empty reload under the refresh lock ends the request's session (shared with C12.R2/R5): refresh only after a successful reload; errors mean no session and a cleared store session", 3)
 	r.Rule("R7-sign-out", "sign-out answers success only after the store delete succeeded (shared with C11.R1)", 2)
 	r.Rule("R8-result-before-errcheck", "in the session stores, persistence, session encoding and encryption code a fallible call's result is dereferenced only behind its err==nil edge (damaged stored data is an error, not a crash)", 8)
+	r.Rule("R9-single-answer", "in every handler of the proxy an error answer (ErrorPage, http.Error, errorJSON) is final: no status, redirect, page or upstream hand-off follows it on any path", 8)
 	r.Rule("R5-decrypt-bounds", "every Cipher.Decrypt slices its input only under a length guard for the same bound", 3)
 
 	rule := "R1-error-discipline"
@@ -226,6 +227,7 @@ func runC13(c *Ctx) {
 		c.checkRefreshProtocol("R6-reload-under-lock", a)
 		c.checkLoaderClears("R6-reload-under-lock", a)
 		runSignOutRule(c, "R7-sign-out")
+		runSingleResponse(c, "R9-single-answer")
 	}
 
 	// ---- R2 ---------------------------------------------------------------------------------
@@ -432,4 +434,94 @@ func lenGuard(p *walk.Path, at int, input ssa.Value, bound walk.DV) bool {
 		}
 	}
 	return false
+}
+
+// runSingleResponse: an error answer is final — after ErrorPage / http.Error / errorJSON no status,
+// redirect, page or hand-off to the upstream follows on the same path. (An error answer followed by
+// the success answer is how "fail closed" silently becomes "fail open": a forgotten return.)
+// The reverse order (a status written, then an error page because writing the body failed) exists
+// twice on the reference tree and breaks no property; it is not flagged.
+func runSingleResponse(c *Ctx, rule string) {
+	handlers := []string{"SignIn", "SignOut", "UserInfo", "OAuthStart", "doOAuthStart", "OAuthCallback", "AuthOnly", "Proxy", "SignInPage", "backendLogout"}
+	errorPage := c.Fn(rule, "(*main.OAuthProxy).ErrorPage")
+	signInPage := c.Fn(rule, "(*main.OAuthProxy).SignInPage")
+	errorJSON := c.Fn(rule, "(*main.OAuthProxy).errorJSON")
+	doStart := c.Fn(rule, "(*main.OAuthProxy).doOAuthStart")
+	httpError := c.StdFunc(rule, "net/http.Error")
+	redirect := c.StdFunc(rule, "net/http.Redirect")
+	writeHeader := c.Method(rule, "net/http.ResponseWriter.WriteHeader")
+	serveHTTP := c.Method(rule, "net/http.Handler.ServeHTTP")
+	if errorPage == nil || signInPage == nil || errorJSON == nil || doStart == nil || httpError == nil || redirect == nil || writeHeader == nil || serveHTTP == nil {
+		return
+	}
+	answer := func(p *walk.Path, cl walk.Call) string {
+		if sc := cl.C.StaticCallee(); sc != nil {
+			switch sc {
+			case errorPage:
+				return "ErrorPage"
+			case signInPage:
+				return "SignInPage"
+			case errorJSON:
+				return "errorJSON"
+			case doStart:
+				return "doOAuthStart"
+			case httpError:
+				return "http.Error"
+			case redirect:
+				return "http.Redirect"
+			}
+			return ""
+		}
+		if cl.C.IsInvoke() {
+			switch {
+			case walk.SameMethod(cl.C.Method, writeHeader):
+				return "WriteHeader"
+			case cl.C.Method.Name() == "ServeHTTP":
+				return "ServeHTTP"
+			}
+		}
+		return ""
+	}
+	for _, h := range handlers {
+		fn := c.Fn(rule, "(*main.OAuthProxy)."+h)
+		if fn == nil {
+			continue
+		}
+		worst := 0
+		flagged := false
+		c.WalkShallow(rule, fn, func(p *walk.Path) {
+			if _, ok := p.Exit.(*ssa.Return); !ok {
+				return
+			}
+			var seq []string
+			var after walk.Call
+			errorSeen, violated := false, false
+			for _, cl := range p.Calls() {
+				if _, isDefer := cl.In.(*ssa.Defer); isDefer {
+					continue
+				}
+				a := answer(p, cl)
+				if a == "" {
+					continue
+				}
+				seq = append(seq, a)
+				if errorSeen && !violated {
+					violated, after = true, cl
+				}
+				if a == "ErrorPage" || a == "http.Error" || a == "errorJSON" {
+					errorSeen = true
+				}
+			}
+			if len(seq) > worst {
+				worst = len(seq)
+			}
+			if violated && !flagged {
+				flagged = true
+				c.bad(rule, "single-answer|"+fnKey(fn), after.In, "this handler keeps answering after an error answer ("+strings.Join(seq, " then ")+"): the error must end the request, otherwise failing closed turns into failing open", p, after.Idx)
+			}
+		})
+		if !flagged {
+			c.R.OK(rule, "single-answer|"+fnKey(fn), c.P.Pos(fn.Pos()), sprintf("no answer follows an error answer on any path (at most %d answering calls per path)", worst))
+		}
+	}
 }
